@@ -63,6 +63,8 @@ func init() {
 }
 
 func runC18(c *Ctx, r *Report) {
+	r.Rule("C18/error-classes", "each failure site named by the property wraps the sentinel the property names (timeout / auth / connection / privilege / NETCONF / operation / platform error)", 2)
+	checkErrorClasses(c, r, "C18")
 	r.Rule("C18/trigger-table", "check(b) == (Contains!=\"\" && contains(b) || ContainsRe!=nil && re(b)) && !(NotContains!=\"\" && b contains the not-contains text), for all 128 rows", 128)
 	r.Rule("C18/case", "haystack and needles are lower-cased under the same Insensitive flag, which defaults to true", 4)
 	r.Rule("C18/first-in-order", "callbacks are scanned by a range loop in list order and the first true check leaves the scan with that index", 1)
